@@ -88,12 +88,6 @@ end Dyce
 namespace Dyce
 open List
 
-theorem leZ_total : TotalOrderB leZ where
-  refl a := by simp [leZ]
-  trans a b c := by simp only [leZ, decide_eq_true_eq]; omega
-  total a b := by simp only [leZ, Bool.or_eq_true, decide_eq_true_eq]; omega
-  antisymm a b := by simp only [leZ, decide_eq_true_eq]; omega
-
 theorem diceOK_relabel (a b : Int) (ha : 0 < a) (dice : List (Hist Int)) (hd : DiceOK leZ dice) :
     DiceOK leZ (relabelDice (fun x => a * x + b) dice) := by
   intro h' hh'
@@ -148,5 +142,53 @@ example : DiceOK (fun a b : Int => decide (a ≤ b)) [[(1, 1), (2, 1)], [(1, 2),
   simp only [List.mem_cons, List.not_mem_nil, or_false] at hh
   rcases hh with rfl | rfl <;> decide
 example : resolve 2 [Sel.idx (-1), Sel.slc none none (some (-1))] = .ok [1, 1, 0] := by decide
+
+theorem diceOK_relabelRev (a b : Int) (ha : a < 0) (dice : List (Hist Int)) (hd : DiceOK leZ dice) :
+    DiceOK leZ (relabelDiceRev (fun x => a * x + b) dice) := by
+  intro h' hh'
+  obtain ⟨h, hh, rfl⟩ := List.mem_map.mp hh'
+  obtain ⟨hs, hT⟩ := hd h hh
+  constructor
+  · rw [List.pairwise_reverse, List.pairwise_map]
+    apply hs.imp
+    intro x y hxy
+    simp only [leZ, decide_eq_true_eq, ne_eq] at hxy ⊢
+    constructor
+    · nlinarith [hxy.1]
+    · intro heq
+      apply hxy.2
+      have : a * y.1 = a * x.1 := by linarith
+      exact (Int.eq_of_mul_eq_mul_left (by omega) this).symm
+  · have : total (h.map fun oc => ((fun x => a * x + b) oc.1, oc.2)).reverse = total h := by
+      simp [total, List.map_map, Function.comp_def, List.sum_reverse]
+    rw [this]; exact hT
+
+/-- **decreasing affine relabelling**: with every face `x` replaced by `a·x + b` (`a < 0`) the sorted
+order of every roll is reversed, so `P'.h(*which)` is `P.h(*which')` relabelled by `s ↦ a·s + b·m`
+whenever `which'` selects the mirrored positions (`j ↦ n-1-j`) — exact counts -/
+theorem C03_affine_decreasing (a b : Int) (ha : a < 0) (dice : List (Hist Int)) (hd : DiceOK leZ dice)
+    (s : Sel) (ss : List Sel) (s' : Sel) (ss' : List Sel) (idxs : List Nat)
+    (hres : resolve dice.length (s :: ss) = .ok idxs)
+    (hres' : resolve dice.length (s' :: ss') = .ok (mirror dice.length idxs)) :
+    ∃ H H', poolH leZ 0 (· + ·) (fun m x => m • x) dice (s' :: ss') = .ok H ∧
+      poolH leZ 0 (· + ·) (fun m x => m • x) (relabelDiceRev (fun x => a * x + b) dice) (s :: ss) = .ok H' ∧
+      ∀ z, countOf (a * z + b * idxs.length) H' = countOf z H := by
+  have hlen : (relabelDiceRev (fun x => a * x + b) dice).length = dice.length := by simp [relabelDiceRev]
+  obtain ⟨H, e, c⟩ := (C03_selection leZ_total dice hd s' ss').2 _ hres'
+  obtain ⟨H', e', c'⟩ := (C03_selection leZ_total _ (diceOK_relabelRev a b ha dice hd) s ss).2 idxs
+    (by rw [hlen]; exact hres)
+  refine ⟨H, H', e, e', fun z => ?_⟩
+  rw [c z, c' (a * z + b * idxs.length)]
+  have hm : mirror dice.length idxs = [] ↔ idxs = [] := by simp [mirror]
+  have hnil : (idxs = [] ∨ relabelDiceRev (fun x => a * x + b) dice = []) ↔ (mirror dice.length idxs = [] ∨ dice = []) := by
+    have : relabelDiceRev (fun x => a * x + b) dice = [] ↔ dice = [] := by simp [relabelDiceRev]
+    rw [this, hm]
+  by_cases h : mirror dice.length idxs = [] ∨ dice = []
+  · rw [if_pos h, if_pos (hnil.mpr h)]
+  · rw [if_neg h, if_neg (fun h' => h (hnil.mp h'))]
+    exact spec_affine_neg a b ha dice idxs (resolve_lt dice.length (s :: ss) idxs hres) z
+
+/-- non-vacuity: on 3 dice, position 0 of the negated pool is position 2 (`-1`) of the original -/
+example : resolve 3 [Sel.idx 0] = .ok [0] ∧ resolve 3 [Sel.idx (-1)] = .ok (mirror 3 [0]) := by decide
 
 end Dyce
